@@ -11,7 +11,8 @@
    chain-dependent checks.
    State of /repo modelled: after dee6410 (block = one batch), 2b21c7f (head switch
    = one batch), 3eba51b (side-chain verification checks the signature), 599b875 (each fork block
-   is stored as soon as verifyAllSideChainBlocks has verified it).
+   is stored as soon as verifyAllSideChainBlocks has verified it), 0702a5f (a block
+   already canonical at or below the head does not become the head again).
    No proofs in this file. *)
 From Coq Require Export List NArith Bool.
 Export ListNotations.
@@ -259,6 +260,14 @@ Definition write_block_with_state (p b : block) (s : st) : st * err :=
   let s := write_block b s in
   let s := if broot b =? broot p then s else wr [WState (broot b)] s in
   let rc := match btxs b with [] => [] | _ => [WRcpt (bid b)] end in
+  (* a block that is already canonical at or below the head (executed again because
+     its state was missing): only state and receipts are new, the head stays *)
+  let already :=
+    match info t (cur s) with
+    | Some c => (bnum b <=? bnum c) && (match canon (disk_of s) (bnum b) with Some h => h =? bid b | None => false end)
+    | None => false
+    end in
+  if already then (wr rc s, ENone) else
   let r :=
     if bpar b =? cur s then Some []
     else match info t (cur s) with
